@@ -29,7 +29,8 @@ from pathlib import Path
 
 VERIF = Path(__file__).resolve().parent.parent
 REPLAYS = VERIF / "replays"
-EVIDENCE = VERIF / "evidence"
+OUT = Path(os.environ.get("VERIF_OUT_DIR") or VERIF)  # mutation audits write elsewhere
+EVIDENCE = OUT / "evidence"
 LEDGER = VERIF / "known_findings.json"
 
 
@@ -308,11 +309,11 @@ class Ctx:
             "tier": self.tier,
             "shrunk": shrunk,
         }
-        d = REPLAYS / self.prop
+        d = OUT / "replays" / self.prop
         d.mkdir(parents=True, exist_ok=True)
         path = d / f"new-{oracle}-{digest(doc['payload'])[:10]}.json"
         path.write_text(json.dumps(doc, indent=1, sort_keys=True))
-        doc["replay"] = str(path.relative_to(VERIF))
+        doc["replay"] = str(path.relative_to(VERIF)) if OUT == VERIF else str(path)
         self.violations.append(doc)
 
     # ----- replay tier
@@ -435,7 +436,7 @@ def merge_results(results: list[dict]) -> dict:
 
 
 def write_evidence(module, tier: str, seed: int, merged: dict, wall_s: float, n_shards: int) -> Path:
-    EVIDENCE.mkdir(exist_ok=True)
+    EVIDENCE.mkdir(parents=True, exist_ok=True)
     nontriv = len(merged["nontrivial"])
     coverage = {
         "evaluations": merged["evaluations"],
